@@ -48,6 +48,36 @@ def operator_grid():
     return out
 
 
+def container_grid():
+    """indexing and every index- / count-taking member on boundary receivers x boundary positions (before the start,
+    -len, -1, 0, len - 1, len, the encoded size of text with multi-byte characters, far out), one operation per program"""
+    out = []
+    texts = ['""', '"a"', '"abc"', '"é"', '"aéb"', '"äöü"', '"😀a"', '"Temperatur: 21°C"']
+    lists = ["[1]", "[1, 2, 3]", '["a", ""]', "[[1], [2, 3]]"]
+    idx = ["0", "1", "2", "3", "4", "5", "6", "7", "16", "17", "18", "100", "(0 - 1)", "(0 - 2)", "(0 - 3)", "(0 - 4)", "(0 - 6)", "(0 - 7)", "(0 - 100)",
+           "9223372036854775807", "(0 - 9223372036854775807 - 1)"]
+    for t in texts:
+        for i in idx:
+            out.append(("index str", "fn main() { let s = %s; let i = %s; println(s[i]); }\n" % (t, i)))
+            out.append(("substring", "fn main() { let s = %s; let i = %s; println(s.substring(i)); }\n" % (t, i)))
+        for i in idx[:8] + idx[12:14]:
+            out.append(("repeat", "fn main() { let s = %s; let i = %s; println(s.repeat(i).len()); }\n" % (t, i)))
+        for a in ['""', '"a"', '"é"', '"ab"']:
+            out.append(("str members", "fn main() { let s = %s; let a = %s; println(s.split(a), s.replace(a, \"x\"), s.replace(a, \"\"), s.contains(a), "
+                        "s.starts_with(a), s.compare_lev(a), s.to_upper(), s.to_lower(), s.len()); for c in s { print(c); } println(\"\"); }\n" % (t, a)))
+    for l in lists:
+        for i in idx:
+            out.append(("index list", "fn main() { let l = %s; let i = %s; println(l[i]); }\n" % (l, i)))
+            out.append(("list remove", "fn main() { let l = %s; let i = %s; l.remove(i); println(l); }\n" % (l, i)))
+            out.append(("list insert", "fn main() { let l = %s; let i = %s; l.insert(i, l[0]); println(l); }\n" % (l, i)))
+            out.append(("index assign", "fn main() { let l = %s; let i = %s; l[i] = l[0]; println(l); }\n" % (l, i)))
+        out.append(("list members", "fn main() { let l = %s; println(l.join(\",\"), l.join(\"\"), l.len(), l.last(), l.contains(l[0]), l.to_json()); "
+                    "l.concat(l); l.push(l[0]); l.push_front(l[0]); println(l.pop(), l.pop_front(), l); }\n" % l))
+    for i in idx:
+        out.append(("range", "fn main() { let i = %s; let n = 0; for j in 0..i { n += 1; if n > 3 { break; } } println(n, (0..i).diff(), (i..0).rev(), i.to_range(), i.to_string()); }\n" % i))
+    return out
+
+
 def misc_programs():
     return [
         ("empty list ops", "fn main() { let l: [int] = []; println(l.pop(), l.pop_front(), l.last(), l.len()); l.sort(); println(l.join(\",\")); }\n"),
@@ -94,12 +124,13 @@ def run(args):
     rnd = random.Random(C.seed())
     rep.cov["rule"] = ("every (operator, operand type) of the analyzer's table x boundary operands (zero divisors, negative and "
                        ">= 64 shift counts, extreme ints/floats, empty strings) incl. compound assignment on variables, elements "
-                       "and fields; boundary programs for members, options, casts, closures, globals; the C01 program families; "
+                       "and fields; indexing and index- / count-taking members on boundary text (multi-byte characters) and lists x boundary "
+                       "positions; boundary programs for members, options, casts, closures, globals; the C01 program families; "
                        "each on both backends under a grid of 4 CoreLimits; observation must be completion or an interrupt, "
                        "never a host panic / hang / dead worker; VM instruction traces must satisfy HmsVM's invariants; "
                        "non-trivial = distinct (program, backend, limits)")
     pool = C.Pool(C.build_worker())
-    srcs = operator_grid() + misc_programs()
+    srcs = operator_grid() + misc_programs() + container_grid()
     fam = Fam.template_programs() + Fam.capture_programs() + Fam.lambda_programs() + Fam.singleton_programs() + Fam.closure_programs() + \
         Fam.nestings(2, rnd, sample=120) + Fam.random_programs(600 if thorough else 150, C.seed() + 7)
     for p in fam:
